@@ -24,16 +24,18 @@ REFINED = ["add_one_in_place", "sub_one_in_place", "add_word_in_place", "sub_wor
            "add_signed_word_in_place / add_signed_same_len_in_place / add_signed_in_place",
            "helpers::add_signed_mul_split_into_chunks (signed carry at c[n] across chunks, remainder in either order)",
            "karatsuba::add_signed_mul_same_len (three products, carry_c0/carry_c1 placement) and karatsuba::add_signed_mul",
+           "toom_3::add_signed_mul_same_len (five evaluations, interpolation t1/t2 with exact /6 and /2, 'never negative', "
+           "carry_c0..carry_c3) and toom_3::add_signed_mul",
            "mul::add_signed_mul_same_len / mul::add_signed_mul dispatch (thresholds regenerated from source), "
            "simple::add_signed_mul, mul::multiply (asserted-zero carry is zero), mul_large for unequal operands",
            "math::max_exp_in_word (k >= 1, base^k fits a word)", "pow binary loop (pow_word_base/pow_dword_base/pow_large_base)",
            "pow_word_base shortcuts (0,1,2,2^k) and word lifting", "TypedReprRef::pow shortcuts 0/1/2",
            "UBig::pow factor-2 removal", "IBig::pow sign rule"]
-FRONTIER = ["toom_3::add_signed_mul_same_len (operands with min(len) > THRESHOLD_KARATSUBA=192): defined as its "
-            "contract 'c += sign*a*b mod B^|c|, carry = quotient' inside the mirrored dispatcher",
+FRONTIER = ["inside toom_3: div_by_word_in_place(t1, 6) (C02) and shr_in_place(t2, 1) (C09) are taken at their "
+            "specification (their asserted-zero remainders are proved zero)",
             "inside pow: buffers of pow_word_base/pow_dword_base carried as values (res*wbase = mul_word_in_place and "
             "res*res = sqr::sqr proved separately); repr.shr(shift)/.shl(exp*shift)/trailing_zeros taken at spec (C09)",
-            "Buffer capacity / allocation panics (C17)"]
+            "Memory scratch sizing (memory_requirement_*) and Buffer capacity / allocation panics (C17)"]
 RULE = ("operand sizes drawn from the size classes {0,1,2,3,4,5, thr-1,thr,thr+1 for thr in 24,32,192, 385, 400, 1025, 2049...} x "
         "bit patterns {10..0, 1..1, 2^k, 2^k+-1, sparse, low words zero, random} x signs x "
         "{add,sub,mul,sqr,cubic,pow} x operand kinds (UBig, IBig, mixed); plus a deterministic block of carry/borrow chains "
@@ -51,9 +53,9 @@ EXPLANATION = ("Theorems (all W >= 1, all lengths, all signs): + and - are refin
                "carry_plus_max trick, add_mul_chunk / sub_mul_chunk) are refined to exact products; pow = base^exp for "
                "UBig/IBig with the sign rule, over the mirrored control flow of pow.rs. mul::add_signed_mul is refined "
                "for all operand lengths through chunk splitting and the Karatsuba recursion (slice-window updates with "
-               "signed carries; the algebraic identity is one linear_combination); squaring (sqr::simple::square and the "
-               "dispatch to mul for > 30 words) is refined as well; only the Toom-3 same-length kernel is at the model "
-               "frontier (defined as its contract) and tied to the code by the correspondence run only. Found while stating the pow theorem and since repaired in /repo (fix: 099d251): "
+               "signed carries; the algebraic identity is one linear_combination); Toom-3 (five evaluations, the two exact divisions, thirteen "
+               "window updates) and squaring (sqr::simple::square and the dispatch to mul for > 30 words) are refined as "
+               "well: no multiplication kernel is left at the model frontier. Found while stating the pow theorem and since repaired in /repo (fix: 099d251): "
                "`exp * shift` in UBig::pow/IBig::pow overflowed usize for base = 2^s, exp*s >= 2^64 (wrong value 1 in "
                "release builds); the corpus witness now agrees with the model (documented allocation panic).")
 ASSUMPTIONS = ["arch add_with_carry/sub_with_borrow and overflowing_add behave as their documented contracts"]
@@ -166,6 +168,29 @@ def mul_threshold_cases(rng, tier):
         a = nat_pattern(rng, na, "random")
         yield Case("u.sqr", [hx(a)])
 
+def mul_chunk_remainder_cases(rng, tier):
+    """unbalanced products whose longer factor is k*n + r words (n = shorter length > THRESHOLD_SIMPLE):
+    `helpers::add_signed_mul_split_into_chunks` multiplies k chunks of n words and then a REMAINDER of r words;
+    the carry that crosses from one chunk into the next (and into the remainder product) is only exercised when
+    r is in (24, n/2], (n/2, n) or <= 24 respectively — cover each class for Karatsuba- and Toom-3-sized n,
+    with operands that force carries between the pieces (all ones) and random ones"""
+    ns = [50, 60, 100, 192] + ([200, 300] if tier == "quick" else [193, 200, 300, 500, 700])
+    for n in ns:
+        rs = sorted({1, 24, 25, 26, n // 2 - 1, n // 2, n // 2 + 1, n - 1} - {0})
+        for r in rs:
+            if not (0 < r < n):
+                continue
+            for k in ((1, 2) if tier == "quick" else (1, 2, 3, 5)):
+                la = k * n + r
+                if tier == "quick" and la * n > 90_000:
+                    continue
+                for pa, pb in (("ones", "ones"), ("random", "random")):
+                    a = nat_pattern(rng, la, pa); b = nat_pattern(rng, n, pb)
+                    if rng.random() < 0.5:
+                        yield Case("u.mul", [hx(a), hx(b)])
+                    else:
+                        yield Case("i.mul", [hx(signed(rng, b)), hx(signed(rng, a))])
+
 def max_exp_in_word(b, W=64):
     e, p = 1, b
     while p * b < (1 << W):
@@ -209,18 +234,21 @@ def generate(rng, tier):
     yield from _generate_base(rng, tier)
     yield from boundary_cases(rng, tier)
     yield from mul_threshold_cases(rng, tier)
+    yield from mul_chunk_remainder_cases(rng, tier)
     yield from pow_cases(rng, tier)
 
 LEVEL_TEXT = ("Machine-checked Lean 4 theorems, for every word size W >= 1, every operand length and sign: the word-level "
               "carry/borrow loops, the inline/heap dispatch of every ownership form, from_buffer normalisation and the IBig "
               "sign tables compute exact sums/differences (UBig underflow = documented panic iff a < b) with canonical "
-              "results; multiplication by one or two words, the schoolbook kernels, chunk splitting and the Karatsuba "
-              "recursion (thresholds regenerated from source; W >= 3 for the signed-carry words) compute exact products "
-              "with the asserted-zero carry of mul::multiply proved zero; the mirrored control flow of pow.rs computes "
+              "results; multiplication by one or two words, the schoolbook kernels, chunk splitting, the Karatsuba and "
+              "Toom-3 recursions and the squaring kernels (thresholds regenerated from source; W >= 4 because of the "
+              "word constants 6 and 12 of Toom-3) compute exact products, with every asserted-zero carry/borrow/remainder "
+              "(mul::multiply, the Toom-3 scratch arithmetic, sqr::simple) proved zero; the mirrored control flow of pow.rs computes "
               "base^exp with the IBig sign rule. The hand-written model is tied to /repo on every run by differential "
               "execution of model and real code over structured operands around every size-class and algorithm threshold, "
-              "all call forms. Squaring is refined too. Only the Toom-3 same-length kernel (both operands > 192 words) is at the "
-              "model frontier: decided by the correspondence against exact Nat arithmetic, not yet by a refinement theorem.")
+              "all call forms. Taken at their specification (kernels of other properties): the single-word division by 6 "
+              "and the 1-bit shift inside Toom-3, the shifts and trailing_zeros around pow; scratch-memory sizing and "
+              "allocation are C17.")
 LEVEL_NOTE = ("Trusted: Lean kernel; axioms propext/Classical.choice/Quot.sound; the correspondence harness and generators "
               "(sampling) for the tie model<->code; arch intrinsics (add_with_carry, sub_with_borrow, overflowing_add, "
               "split_dword/extend_word) at their documented contracts; frontier kernels listed in evidence are modelled as "
